@@ -54,10 +54,14 @@ CHECKS = {
    design="5/C07", note=TB + 'Partial: atomicity (conflict serialisability of the data steps), the worker-count/condvar handshake of exclusive sections, rwlock writer preference and data-race freedom are NOT proved; thread schedules are sampled by the kernel scheduler. A scan is a sequence of atomic cursor calls and is not required to be atomic as a whole.',
    technique='Coq proof of deadlock freedom under a dynamic lock-rank discipline + lock-order tracer on the real library + concurrent executions checked for linearisability and termination'),
  "C08": dict(
-   text="Proof (Coq) over a model of the backup image layout and of opening it (recover mode 2): split_mk_image, replay_cut_mode2, open_image_is_savepoint_state. "
-        "Implementation: online backup with a second writer thread released at the k-th chunk of the main-file copy; the image must open to a prefix state within "
-        "[ops done at call, ops done at return] and the live store must be unaffected; extracted open_image compared with the implementation's main file.",
-   design="5/C08", note=TB + "Covers the image half; thread schedules are sampled. Known finding C08-growth-during-main-copy is reported, not failed.",
+   text="Proof (Coq) over a model of the backup image layout, the five stages of the call and of opening the image (recover mode 2): split_mk_image, replay_cut_mode2, "
+        "open_image_is_savepoint_state, backup_run_is_image, backup_refused_while_running, failed_backup_releases. "
+        "Implementation: online backup with a second writer thread released at the k-th chunk of the main-file copy or at the end of WAL_COPY1; the image must open to a prefix state within "
+        "[ops done at call, ops done at return] and the live store must be unaffected; extracted open_image compared with the implementation's main file; the last stage is observed to "
+        "run under the store's exclusive lock (lock skeleton of the call), and backups are taken under free-running writer threads doing in-place updates (whole values, one cut per "
+        "writer, bounded by completed-before-the-call and issued-at-return).",
+   design="5/C08", note=TB + "Covers the image half; thread schedules are sampled, not enumerated; the checkpoint thread is off. The stage model has no writer event in stage 5: that is the "
+        "observed lock skeleton (harness/h_bkpload.c interposes pthread_rwlock_wrlock/unlock and write), not a theorem about the C code. Known finding C08-growth-during-main-copy is reported, not failed.",
    technique="Coq proofs over the image model + backup-under-load scenarios with a snapshot oracle"),
  "C09": dict(
    text="Proof (Coq): on the node model with cursor copies (every fix-up loop of iwkv.c after the recorded repairs): whatever a successful put does (overwrite, insert, new node in front / behind, split with the record going either way) every cursor on a record stays on a record with the same key, fresh copy, same pending step (put_keeps_cursor); every successful delete - by key or through a cursor, including the cursor's own record and the removal of a whole node - leaves each cursor in one of four proved outcomes (del_keeps_cursor); the remaining forward AND backward scan of a cursor after the mutation is the old one plus the new record iff it lies ahead (resp. in front) / minus the deleted key (scan_stable_put/del, scan_prev_stable_put/del); the invariant (chain invariant, unique node ids, every cursor copy fresh and in range) holds in EVERY state the API-level model reaches by any sequence of put / delete / cursor open / move / set / delete / close (db_inv_reachable), so the theorems apply to every reachable state (db_scan_stable_*, db_rscan_stable_*), instantiated for byte and integer keys with node size and pivot from the source and no hypothesis left. The model is compared with the implementation's cursor bookkeeping after every mutation; a reference oracle decides skip / repeat / resurrect.",
